@@ -142,6 +142,9 @@ impl Decoder for ClientCodec {
                 } else {
                     conn_type
                 };
+            } else if req.version < Version::HTTP_11 {
+                // an HTTP/1.0 response without `Connection: keep-alive` is not persistent
+                self.inner.conn_type = ConnectionType::Close;
             }
 
             if !self.inner.flags.contains(Flags::HEAD) {
